@@ -102,7 +102,7 @@ func (l *nhFailLogDB) SaveRaftState(uds []pb.Update, worker uint64) error {
 			u.State.Term, u.State.Vote, u.State.Commit, u.Snapshot.Index))
 	}
 	if fail {
-		l.rec.add("F srs %d %s", n, strings.Join(parts, " "))
+		l.rec.add("F srs %d t=%d %s", n, time.Now().UnixNano(), strings.Join(parts, " "))
 		return errNhInjected
 	}
 	err := l.ILogDB.SaveRaftState(uds, worker)
@@ -119,7 +119,7 @@ func (l *nhFailLogDB) SaveSnapshots(uds []pb.Update) error {
 	fail := l.mode == "ss" && n == l.k
 	l.mu.Unlock()
 	if fail {
-		l.rec.add("F ss %d", n)
+		l.rec.add("F ss %d t=%d", n, time.Now().UnixNano())
 		return errNhInjected
 	}
 	err := l.ILogDB.SaveSnapshots(uds)
@@ -259,7 +259,7 @@ func nhChild(a vh.Args) {
 		}
 		nhc := config.NodeHostConfig{
 			NodeHostDir:    filepath.Join(a.Out, fmt.Sprintf("host%d", i)),
-			RTTMillisecond: 2,
+			RTTMillisecond: 5,
 			RaftAddress:    members[uint64(i)],
 			Expert: config.ExpertConfig{
 				LogDBFactory:     ldbf,
@@ -285,7 +285,7 @@ func nhChild(a vh.Args) {
 		nhs = append(nhs, nh)
 	}
 	for i := 1; i <= 3; i++ {
-		rc := config.Config{ReplicaID: uint64(i), ShardID: nhShard, ElectionRTT: 10, HeartbeatRTT: 2, CheckQuorum: true,
+		rc := config.Config{ReplicaID: uint64(i), ShardID: nhShard, ElectionRTT: 20, HeartbeatRTT: 2, CheckQuorum: true,
 			SnapshotEntries: 5, CompactionOverhead: 2}
 		ii := i
 		create := func(shardID, replicaID uint64) sm.IStateMachine {
@@ -370,22 +370,27 @@ func nhChild(a vh.Args) {
 	}
 	// let a snapshot in progress finish
 	time.Sleep(60 * time.Millisecond)
-	rec.add("END")
+	// from here on the hosts are being shut down: a store error that arrives now meets
+	// workers that are stopping, it is not part of what is judged
+	rec.add("CLOSING t=%d", time.Now().UnixNano())
 	for _, nh := range nhs {
 		nh.Close()
 	}
+	rec.add("END")
 	os.Exit(0)
 }
 
 // ---- the parent ----
 
 type nhOutcome struct {
-	viol      string
-	fired     bool
-	died      bool
-	srsCalls  int
-	ssCalls   int
-	afterFail int // record lines after the failed save
+	viol         string
+	fired        bool
+	died         bool
+	srsCalls     int
+	ssCalls      int
+	afterFail    int    // record lines after the failed save
+	duringClose  bool   // the failing save fell into the shutdown of the hosts
+	inconclusive string // the scenario could not be run (time limit, no leader): not judged
 }
 
 func runNhChild(exe string, dir string, spec string) (exit int, stderr string) {
@@ -393,7 +398,7 @@ func runNhChild(exe string, dir string, spec string) (exit int, stderr string) {
 	if err := os.WriteFile(cf, []byte(spec+"\n"), 0644); err != nil {
 		return -1, err.Error()
 	}
-	ctx, cancel := context.WithTimeout(context.Background(), 60*time.Second)
+	ctx, cancel := context.WithTimeout(context.Background(), 150*time.Second)
 	defer cancel()
 	cmd := exec.CommandContext(ctx, exe, "nhchild", "-cases", cf, "-out", dir)
 	var eb bytes.Buffer
@@ -441,6 +446,17 @@ func runNhFail(outRoot string, id string, store string, mode string, k int, prop
 	rec := readRecord(filepath.Join(dir, "record1.txt"))
 	failAt := -1
 	ended := false
+	closingAt := -1
+	var failT, closingT int64
+	stamp := func(f []string) int64 {
+		for _, x := range f {
+			if strings.HasPrefix(x, "t=") {
+				v, _ := strconv.ParseInt(x[2:], 10, 64)
+				return v
+			}
+		}
+		return 0
+	}
 	lastSaved := uint64(0)
 	savedBeforeFail := uint64(0)
 	started := map[uint64]bool{}
@@ -454,10 +470,18 @@ func runNhFail(outRoot string, id string, store string, mode string, k int, prop
 		case "F":
 			if failAt < 0 {
 				failAt = i
+				failT = stamp(f)
 				savedBeforeFail = lastSaved
 			}
+		case "CLOSING":
+			closingAt = i
+			closingT = stamp(f)
 		case "S":
 			res.srsCalls++
+			if failAt >= 0 && mode == "srs" && closingAt < 0 {
+				res.viol = fmt.Sprintf("host 1 went on saving after its SaveRaftState #%d had failed: %s", k, clip(l))
+				return res
+			}
 			for _, x := range f {
 				if strings.HasPrefix(x, "last=") {
 					v, _ := strconv.ParseUint(x[5:], 10, 64)
@@ -471,7 +495,7 @@ func runNhFail(outRoot string, id string, store string, mode string, k int, prop
 		case "END":
 			ended = true
 		case "X":
-			res.viol = "the child could not run the scenario: " + l
+			res.inconclusive = "the child could not run the scenario: " + l
 			return res
 		case "A":
 			idx, _ := strconv.ParseUint(f[1], 10, 64)
@@ -489,7 +513,7 @@ func runNhFail(outRoot string, id string, store string, mode string, k int, prop
 				done[pid] = true
 			}
 		case "M":
-			if failAt >= 0 && mode == "srs" {
+			if failAt >= 0 && mode == "srs" && closingAt < 0 {
 				res.viol = fmt.Sprintf("host 1 handed a message to the transport after its SaveRaftState #%d had failed: %s", k, l)
 				return res
 			}
@@ -497,20 +521,41 @@ func runNhFail(outRoot string, id string, store string, mode string, k int, prop
 	}
 	_ = savedBeforeFail
 	res.fired = failAt >= 0
+	if res.fired && closingAt >= 0 && closingAt < failAt {
+		// the failing save was issued while the hosts were being closed: NodeHost.Close
+		// stops the workers, whether the error still reaches a panic is a race that is
+		// not judged. Only the restart below is.
+		res.fired = false
+		res.duringClose = true
+	}
 	if res.fired {
 		res.afterFail = len(rec) - failAt - 1
-		res.died = exit != 0 && !ended
+		// the panic (plog.Panicf renders the error with its stack first) can take longer
+		// than the rest of a workload that is almost over: whether the main goroutine got
+		// as far as CLOSING / END does not matter, what matters is that the process ended
+		// by the panic and that host 1 did nothing after the failed save (judged above)
+		res.died = exit != 0
 		if !res.died {
-			res.viol = fmt.Sprintf("the log store of host 1 failed (%s #%d) but the process did not stop: exit=%d reached-the-end=%v", mode, k, exit, ended)
+			res.viol = fmt.Sprintf("the log store of host 1 failed (%s #%d, %d ms before the shutdown began) but the process did not stop: exit=%d reached-the-end=%v",
+				mode, k, (closingT-failT)/1000000, exit, ended)
 			return res
 		}
 		if !strings.Contains(se, "panic") {
 			res.viol = fmt.Sprintf("the process died (exit %d) but not by a panic: %s", exit, clip(se))
 			return res
 		}
-	} else if exit != 0 || !ended {
-		res.viol = fmt.Sprintf("fault-free run did not finish: exit=%d %s", exit, clip(se))
+	} else if !res.duringClose && (exit != 0 || !ended) {
+		if exit == -1 || !strings.Contains(se, "panic") {
+			// the child was killed by the time limit / could not be started (an overloaded
+			// machine): nothing about the library can be concluded from that
+			res.inconclusive = fmt.Sprintf("run without a fired fault did not finish: exit=%d %s", exit, clip(se))
+			return res
+		}
+		res.viol = fmt.Sprintf("no fault fired but the process died: exit=%d %s", exit, clip(se))
 		return res
+	}
+	if os.Getenv("C10_NH_DEBUG") != "" {
+		fmt.Fprintf(os.Stderr, "== %s %s#%d exit=%d ended=%v failAt=%d closingAt=%d dt=%dus lines=%d\n", id, mode, k, exit, ended, failAt, closingAt, (closingT-failT)/1000, len(rec))
 	}
 	// restart on the unwrapped store
 	exit2, se2 := runNhChild(os.Args[0], dir, fmt.Sprintf("phase=2 store=%s tag=%s", store, tag))
@@ -522,6 +567,10 @@ func runNhFail(outRoot string, id string, store string, mode string, k int, prop
 			state = strings.TrimSpace(strings.TrimPrefix(l, "STATE"))
 			got = true
 		}
+	}
+	if exit2 == -1 {
+		res.inconclusive = "the restart child hit the time limit"
+		return res
 	}
 	if exit2 != 0 || !got {
 		res.viol = fmt.Sprintf("the hosts do not come back after the failure (%s #%d): exit=%d record=%v %s", mode, k, exit2, rec2, clip(se2))
@@ -587,7 +636,10 @@ func runNhFailLines(lines []string, outRoot string, obs *vh.LineWriter, st *vh.S
 		if hf[4] == "sample" {
 			// a fault-free run tells how many calls there are
 			r0 := runNhFail(outRoot, c.id+"-probe", hf[2], hf[3], 0, p.props, p.lead)
-			if r0.viol != "" {
+			if r0.inconclusive != "" {
+				r0 = runNhFail(outRoot, c.id+"-probe2", hf[2], hf[3], 0, p.props, p.lead)
+			}
+			if r0.viol != "" || r0.inconclusive != "" {
 				c.ok = true
 				c.jobs = append(c.jobs, &job{id: c.id, store: hf[2], mode: hf[3], k: 0, out: r0})
 				continue
@@ -631,6 +683,9 @@ func runNhFailLines(lines []string, outRoot string, obs *vh.LineWriter, st *vh.S
 			sem <- struct{}{}
 			defer func() { <-sem }()
 			j.out = runNhFail(outRoot, j.id, j.store, j.mode, j.k, j.props, j.lead)
+			if j.out.inconclusive != "" {
+				j.out = runNhFail(outRoot, j.id+"-again", j.store, j.mode, j.k, j.props, j.lead)
+			}
 		}(j)
 	}
 	wg.Wait()
@@ -644,6 +699,13 @@ func runNhFailLines(lines []string, outRoot string, obs *vh.LineWriter, st *vh.S
 		for _, j := range c.jobs {
 			st.Count("nhfail.runs")
 			st.Count("nhfail.store." + j.store)
+			if j.out.inconclusive != "" {
+				st.Count("nhfail.inconclusive-not-judged")
+				st.Notes["nhfail.inconclusive."+c.id] = clip(j.out.inconclusive)
+			}
+			if j.out.duringClose {
+				st.Count("nhfail.fault-during-close-not-judged")
+			}
 			if j.out.fired {
 				fired = true
 				st.Count("nhfail.fault-fired." + j.mode)
